@@ -218,3 +218,9 @@ for _q in QUERIES:
     _vals = [int(e.split(':')[1]) for e in _q['unwindset'] if e.startswith('vf_sprintf.')]
     if _vals:
         _q['unwindset'] = [e for e in _q['unwindset'] if not e.startswith('vf_sprintf.')] + ['vf_sprintf.%d:%d' % (i, max(_vals)) for i in range(10)]
+
+# the libc string models of vf_str.h get the largest bound of the query for all their loops
+for _q in QUERIES:
+    _all = [int(e.split(':')[1]) for e in _q['unwindset'] if ':' in e and not e.split(':')[0].endswith('main.0')] + ([_q['unwind']] if _q.get('unwind') else [])
+    _b = max([v for v in _all if v <= 70] or [8])
+    _q['unwindset'] = _q['unwindset'] + ['%s.%d:%d' % (f, i, _b) for f in ('vf_strcspn', 'vf_strspn', 'vf_memchr', 'vf_strstr') for i in range(3)]
